@@ -2,18 +2,18 @@ SPECIFICATION Spec
 CONSTANTS
   Guids = {"g1"}
   RuleIds = {"r1"}
-  Contents = {"c1", "c2"}
+  Contents = {"c1"}
   Versions = {"2.0"}
   ModeOf <- MCModeOf
-  RulesKey = "idmode"
-  IdsIdentifyContent = FALSE
+  RulesKey = "item"
+  IdsIdentifyContent = TRUE
   IncOf <- MCIncOf
   KeepHigherIncarnation = FALSE
-  StateEarly = FALSE
+  StateEarly = TRUE
   InitScenarios = {"fresh"}
-  InitDocs <- DocsEmptyId
+  InitDocs <- DocsSmall
   MaxReconf = 2
-  MaxFaults = 0
+  MaxFaults = 1
   MaxCrash = 0
   MaxDamage = 0
   MaxNotify = 0
